@@ -312,12 +312,15 @@ def main():
         "violations": 1 if violation else 0,
     }
     if prop == "C18":
-        ev["coverage"]["baseline"] = {"scripts_per_variant": 525, "description": "all words over {EINTR,EAGAIN} of length 0..5 x 7 terminals (441) + homogeneous runs of 7..4096 EINTR or EAGAIN x {success, EIO} (84)", "exhaustive_in_every_variant": all(v["baseline_exhaustive"] for v in per_variant) if per_variant else False}
+        ev["coverage"]["baseline"] = {"scripts_per_variant": 787, "description": "all words over {EINTR,EAGAIN} of length 0..5 x 7 terminals (441) + homogeneous runs of 7..4096 EINTR or EAGAIN x {success, EIO} (84) + every errno 1..133 other than EINTR/EAGAIN as the permanent error, alone and after EAGAIN EINTR (262)", "exhaustive_in_every_variant": all(v["baseline_exhaustive"] for v in per_variant) if per_variant else False}
     if prop == "C16":
         ev["coverage"]["baseline"] = {"description": "all op sequences of length <= %d over a 10-letter alphabet, prod variant" % (5 if tier == "thorough" else 4), "exhaustive": bool(per_variant and per_variant[0]["baseline_exhaustive"])}
     if side is not None:
         ev["coverage"]["side_check_symbols"] = side
     obs = [dict(variant=r.get("variant"), **r["unclaimed_observation"], search_truncated_at_run=r.get("search_truncated_at_run")) for r in results if r.get("unclaimed_observation")]
+    if ctr.get("asan_read_reports_unclaimed_observation", 0):
+        print("OBSERVATION (unclaimed property C06, memory safety): AddressSanitizer reported %d out-of-bounds reads / out-of-statement writes in the san variant; not a violation of %s" % (ctr["asan_read_reports_unclaimed_observation"], prop))
+        obs.append({"class": "asan-report-outside-statement", "count": ctr["asan_read_reports_unclaimed_observation"]})
     if obs:
         for o in obs:
             o.pop("plan", None)
